@@ -2,6 +2,8 @@
 // that decide its structural clauses, with the text that goes into the evidence.
 package props
 
+import "strings"
+
 type Prop struct {
 	ID         string
 	Rules      []string // rule selectors: "RULE" or "RULE@substr1|substr2" (constructs containing one of the substrings)
@@ -16,11 +18,6 @@ var All = map[string]*Prop{}
 // Pending gives the reason a property is (still) listed under not_applicable.
 var Pending = map[string]string{}
 
-func add(p *Prop) {
-	p.Assume = append(append([]string{}, commonAssume...), p.Assume...)
-	All[p.ID] = p
-}
-
 var commonAssume = []string{
 	"go/types and go/ssa (x/tools v0.29.0) model the analysed build configuration faithfully (quick: amd64; thorough: amd64, amd64 with the pure-Go build tags, 386)",
 	"nothing in /repo is executed; every verdict is a statement about the source as loaded at run time",
@@ -32,73 +29,134 @@ var cdaiAssume = []string{
 	"a finite Decimal has a non-empty mantissa (so same()/alias() of one finite Decimal's mantissa with itself are true)",
 }
 
-const techCDAI = "finite-domain abstract interpretation of the SSA form (constant propagation with branch pruning and path forking over enumerated operand classes/modes/digits), compared with IEEE 754 tables written from the standard"
+var fxAssume = []string{
+	"E1 effect summaries over-approximate writes and reads through statically resolved callees; *Decimal values never flow through interfaces or containers in this code base (an unknown reference makes the obligation fail, not pass)",
+	"the vector kernels write only through their first slice parameter (axiom for the assembly bodies, backed by the E7 store-target lint; derived for the Go twins)",
+}
+
+const (
+	techCDAI = "finite-domain abstract interpretation of the SSA form (constant propagation with branch pruning and path forking over enumerated operand classes/modes/digits), compared with IEEE 754 tables written from the standard"
+	techFX   = "per-function forward dataflow on the SSA form with interprocedural effect summaries (write sets, slice roots, relation of prec/mode to their entry values, entry-value reads)"
+)
+
+// p registers a property. decided is a list of "RULE: clause" sentences.
+func p(id string, rules []string, decided []string, notDecided, technique string, assume ...[]string) {
+	a := append([]string{}, commonAssume...)
+	for _, x := range assume {
+		a = append(a, x...)
+	}
+	All[id] = &Prop{ID: id, Rules: rules, Decided: strings.Join(decided, " "), NotDecided: notDecided, Assume: a, Technique: technique}
+}
 
 func init() {
-	add(&Prop{ID: "C01",
-		Rules:      []string{"T-ROUND", "T-SETEXP", "T-ARITH@Add(|Sub(|Mul(|Quo(", "T-UNARY@Set(|SetPrec(|Neg(|Abs("},
-		Decided:    "T-ROUND: the rounding decision of round() equals the IEEE 754 direction table for all 6 modes x 2 signs x 10 rounding digits x sticky (argument or mantissa) x parity, with the all-nines carry stepping the exponent or overflowing to Inf; T-SETEXP: exponent underflow -> zero and overflow -> Inf of the result's sign before rounding, sticky bit handed to round; T-ARITH: for every operand class pair and mode the sign is final and the operands are in the right order before the unsigned operation, the receiver's own precision is in force, a zero operand yields the other operand rounded under ITS final sign; T-UNARY: Set/SetPrec/Neg/Abs round exactly when the precision shrinks and with the documented sign.",
-		NotDecided: "that alignment shifts, digit positions, products and quotients are the right numbers (numeric core, not applicable to static analysis)",
-		Assume:     cdaiAssume, Technique: techCDAI,
-	})
-	add(&Prop{ID: "C02",
-		Rules:      []string{"T-ROUND", "T-SETEXP", "T-ARITH@Add(|Sub(|Mul(|Quo(|FMA(", "T-UNARY@Set(|SetPrec(|SetInf(|SetMode(|SetInt|SetUint64(|NewDecimal(|SetMantExp("},
-		Decided:    "accuracy columns of T-ROUND (acc = sign of stored-exact as a function of increment and sign; Exact iff rounding digit = 0 and no sticky) and T-SETEXP (underflow/overflow accuracies); every special-value result of Add/Sub/Mul/Quo/FMA and of the setters is reported Exact; the exact-cancellation branch reports Exact; no rounding happens under a sign that is flipped afterwards.",
-		NotDecided: "that the sticky bit summarises exactly the discarded digits (numeric)",
-		Assume:     cdaiAssume, Technique: techCDAI,
-	})
-	add(&Prop{ID: "C03",
-		Rules:      []string{"T-ARITH@FMA(", "T-ARITH-ALIAS@FMA("},
-		Decided:    "T-ARITH for FMA over {±0, ±finite, ±Inf}^3 x 6 modes x precision orderings: ErrNaN exactly for 0*Inf and Inf-Inf forms, IEEE zero-sum sign including a zero u, the product computed exactly (precision MaxPrec, restored afterwards) and rounded once, sign and operand order of the final unsigned add/sub; T-ARITH-ALIAS: the same table with the receiver bound to x, y, u and operands bound to each other.",
-		NotDecided: "the numeric result for finite operands; whether an intermediate product outside the exponent range is handled exactly",
-		Assume:     cdaiAssume, Technique: techCDAI,
-	})
-	add(&Prop{ID: "C04",
-		Rules:      []string{"T-ARITH", "T-UNARY@Sqrt(", "T-CONV@SetFloat"},
-		Decided:    "T-ARITH: every class combination of Add/Sub/Mul/Quo/FMA in every mode gives the IEEE form and sign or panics with ErrNaN, and nothing else panics with ErrNaN; T-UNARY: Sqrt special values (sqrt(±0)=±0, sqrt(+Inf)=+Inf, negative -> ErrNaN); T-CONV: SetFloat64(NaN) -> ErrNaN, no other class panics.",
-		NotDecided: "absence of run-time panics (index, nil) in the numeric code paths in general; the cell (+0)+(-0) under ToNegativeInf is left unconstrained (the code follows math/big, see DESIGN §5 F15)",
-		Assume:     cdaiAssume, Technique: techCDAI,
-	})
-	add(&Prop{ID: "C05",
-		Rules:      []string{"T-UNARY@Sqrt("},
-		Decided:    "T-UNARY for Sqrt: special values; the receiver's precision and rounding mode are the same after the call as before (also on the finite path, where the root computation is entered with the receiver's precision and mode and a non-negative value).",
-		NotDecided: "that prec+2 working digits and the final multiplication give the correctly rounded root (numeric, not applicable)",
-		Assume:     cdaiAssume, Technique: techCDAI,
-	})
-	add(&Prop{ID: "C07",
-		Rules:      []string{"CONST"},
-		Decided:    "E6-CONST: word-base constants (_DB=10^_DW, _DW, _DWb, _DMax), pow10tab, pow2digitsTab, decMaxPow32/64, pow5tab, the reciprocal constant mP of div10W_g, every pow10DivTab64/32 entry (exact-division criterion proved for every word-sized dividend), layout of struct magic, enumerator equality with math/big.",
-		NotDecided: "instruction-level equivalence of an assembly body and its portable twin (needs symbolic execution of x86 code, a different technique family)",
-		Technique:  "constant/table evaluation against mathematical definitions (go/types constants + math/big on source constants)",
-	})
-	add(&Prop{ID: "C10",
-		Rules:      []string{"T-ARITH-ALIAS"},
-		Decided:    "T-ARITH-ALIAS: the dispatch tables of Add/Sub/Mul/Quo/FMA hold under every binding of the receiver to an operand and of operands to each other (z=x, z=y, x=y, z=x=y, z=u, x=u, y=u, all equal), with the receiver's previous form, sign and accuracy unknown.",
-		NotDecided: "stale words in a reused mantissa buffer; field-level read-after-write hazards outside the dispatch code (FX rules, pending)",
-		Assume:     cdaiAssume, Technique: techCDAI,
-	})
-	add(&Prop{ID: "C14",
-		Rules:      []string{"T-CONV@Int64(|Uint64(|Int(|Rat(", "T-UNARY@SetInt|SetUint64(|NewDecimal(|MinPrec(|IsInt("},
-		Decided:    "T-CONV: Int64/Uint64/Int/Rat for ±0, ±Inf and finite values by exponent class give the documented saturation values and accuracies; T-UNARY: SetInt/SetInt64/SetUint64/NewDecimal set sign before rounding, +0 for a zero argument, keep a non-zero precision and choose the documented default otherwise; MinPrec/IsInt special cases.",
-		NotDecided: "exactness of the radix conversions and of SetInt's precision estimate (numeric)",
-		Assume:     cdaiAssume, Technique: techCDAI,
-	})
-	add(&Prop{ID: "C15",
-		Rules:      []string{"T-CONV@SetFloat"},
-		Decided:    "T-CONV: SetFloat64 and SetFloat dispatch on the ARGUMENT's class: NaN -> ErrNaN, ±0 and ±Inf map to themselves with the argument's sign and Exact accuracy, a finite value enters the scaling arithmetic with the argument's sign and is rounded last with the receiver's precision.",
-		NotDecided: "nearest/faithful rounding of the conversions, double rounding in Float32/Float64 (numeric, not applicable)",
-		Assume:     cdaiAssume, Technique: techCDAI,
-	})
-	add(&Prop{ID: "C16",
-		Rules:      []string{"T-CMP"},
-		Decided:    "T-CMP: Cmp over all 36 class pairs x the three possible results of ucmp: classes ordered -Inf < -finite < ±0 < +finite < +Inf, equal-sign finite values compared by exactly one ucmp in the right operand order, independent of precision/mode/accuracy of the operands; Sign, IsZero, IsInf, Signbit agree with the classification.",
-		NotDecided: "that ucmp's zero-padding loop compares the right words (loop arithmetic)",
-		Assume:     cdaiAssume, Technique: techCDAI,
-	})
-	add(&Prop{ID: "C20",
-		Rules:      []string{"T-UNARY@MantExp(|SetMantExp("},
-		Decided:    "T-UNARY: MantExp returns 0 and copies form/sign for ±0/±Inf, returns x's exponent and leaves mant with exponent 0 otherwise (also for mant nil and mant = x); SetMantExp copies zeros/infinities without scaling and enters setExpAndRound with exponent(mant)+exp and the sign already set, also for z = mant.",
-		NotDecided: "the exponent-correction arithmetic of SetBitsExp/BitsExp (numeric); PREC0/EXP/MUSTFLOW rules pending",
-		Assume:     cdaiAssume, Technique: techCDAI,
-	})
+	p("C01",
+		[]string{"T-ROUND", "T-SETEXP", "T-ARITH@Add(|Sub(|Mul(|Quo(", "T-UNARY@Set(|SetPrec(|Neg(|Abs("},
+		[]string{
+			"T-ROUND: the rounding decision of round() equals the IEEE 754 direction table for all 6 modes x 2 signs x 10 rounding digits x sticky (argument or mantissa) x parity, with the all-nines carry stepping the exponent or overflowing to Inf.",
+			"T-SETEXP: exponent underflow -> zero and overflow -> Inf of the result's sign before rounding; the caller's sticky bit is handed to round.",
+			"T-ARITH: for every operand class pair and mode the sign is final and the operands are in the right order before the unsigned operation, the receiver's own precision is in force, a zero operand yields the other operand rounded under ITS final sign.",
+			"T-UNARY: Set/SetPrec/Neg/Abs round exactly when the precision shrinks, with the documented sign.",
+		},
+		"that alignment shifts, digit positions, products and quotients are the right numbers (numeric core, not applicable to static analysis)",
+		techCDAI, cdaiAssume)
+	p("C02",
+		[]string{"T-ROUND", "T-SETEXP", "T-ARITH@Add(|Sub(|Mul(|Quo(|FMA(", "T-UNARY@Set(|SetPrec(|SetInf(|SetMode(|SetInt|SetUint64(|NewDecimal(|SetMantExp(", "FX-ACC"},
+		[]string{
+			"T-ROUND/T-SETEXP accuracy columns: acc = sign of (stored - exact) as a function of increment and sign; Exact iff rounding digit = 0 and no sticky; underflow/overflow accuracies.",
+			"T-ARITH/T-UNARY: every special-value result is reported Exact, the exact-cancellation branch reports Exact, no rounding happens under a sign that is flipped afterwards.",
+			"FX-ACC: every listed operation writes the accuracy on every success exit (also z.Set(z)), so no stale accuracy of an earlier operation survives.",
+		},
+		"that the sticky bit summarises exactly the discarded digits (numeric)",
+		techCDAI, cdaiAssume, fxAssume)
+	p("C03",
+		[]string{"T-ARITH@FMA(", "T-ARITH-ALIAS@FMA(", "FX-RAW@(*Decimal).FMA", "FX-RBW@(*Decimal).FMA", "FX-STICKY@(*Decimal).FMA"},
+		[]string{
+			"T-ARITH for FMA over {±0, ±finite, ±Inf}^3 x 6 modes x precision orderings: ErrNaN exactly for 0*Inf and Inf-Inf forms, IEEE zero-sum sign including a zero u, the product computed exactly (precision MaxPrec, restored afterwards) and rounded once, sign and operand order of the final unsigned add/sub.",
+			"T-ARITH-ALIAS: the same table with the receiver bound to x, y, u and operands bound to each other.",
+			"FX-RAW: no field of x, y or u is read after the same field of the receiver (or of the scratch object that may be the receiver) was written unless a pointer comparison proved them distinct; FX-RBW: nothing the receiver held before is read; FX-STICKY: the temporary precision MaxPrec is restored on every exit.",
+		},
+		"the numeric result for finite operands; whether an intermediate product outside the exponent range is handled exactly",
+		techCDAI, cdaiAssume, fxAssume)
+	p("C04",
+		[]string{"T-ARITH", "T-UNARY@Sqrt(", "T-CONV@SetFloat", "PREC0", "FX-RBW"},
+		[]string{
+			"T-ARITH: every class combination of Add/Sub/Mul/Quo/FMA in every mode gives the IEEE form and sign or panics with ErrNaN, and nothing else panics with ErrNaN.",
+			"T-UNARY: Sqrt special values (sqrt(±0)=±0, sqrt(+Inf)=+Inf, negative -> ErrNaN); T-CONV: SetFloat64(NaN) -> ErrNaN, no other class panics.",
+			"PREC0: no exported operation can reach round with an unexamined (possibly zero) precision (index out of range in round); FX-RBW: no setter dispatches on the receiver's previous form.",
+		},
+		"absence of run-time panics (index, nil) in the numeric code paths in general; the cell (+0)+(-0) under ToNegativeInf is left unconstrained (the code follows math/big, see DESIGN §5 F15)",
+		techCDAI, cdaiAssume, fxAssume)
+	p("C05",
+		[]string{"T-UNARY@Sqrt(", "FX-STICKY@(*Decimal).Sqrt|sqrtInverse", "FX-RBW@(*Decimal).Sqrt", "FX-RAW@(*Decimal).Sqrt|sqrtInverse", "FX-GLOBAL@oneHalf|three", "FX-IMMUT@(*Decimal).Sqrt|sqrtInverse"},
+		[]string{
+			"T-UNARY for Sqrt: special values; the receiver's precision and rounding mode are the same after the call as before (also on the finite path, where the root computation is entered with the receiver's precision and mode and a non-negative value).",
+			"FX-STICKY: precision and mode of the receiver are restored on every exit of Sqrt (through MantExp -> Copy).",
+			"FX-RBW/FX-RAW/FX-IMMUT: Sqrt does not depend on the receiver's previous contents, has no read-after-write hazard for z == x, and never writes x; FX-GLOBAL: the shared constants oneHalf and three are only ever operands.",
+		},
+		"that prec+2 working digits and the final multiplication give the correctly rounded root (numeric, not applicable)",
+		techCDAI, cdaiAssume, fxAssume)
+	p("C07",
+		[]string{"CONST"},
+		[]string{"E6-CONST: word-base constants (_DB=10^_DW, _DW, _DWb, _DMax), pow10tab, pow2digitsTab, decMaxPow32/64, pow5tab, the reciprocal constant mP of div10W_g, every pow10DivTab64/32 entry (exact-division criterion proved for every word-sized dividend), layout of struct magic, enumerator equality with math/big."},
+		"instruction-level equivalence of an assembly body and its portable twin (needs symbolic execution of x86 code, a different technique family)",
+		"constant/table evaluation against mathematical definitions (go/types constants + math/big on source constants)")
+	p("C09",
+		[]string{"FX-STICKY", "FX-IMMUT", "FX-OWN", "T-UNARY@Set(|SetInt|SetUint64(|NewDecimal(|Sqrt(", "T-ARITH@prec=[0", "T-CONV@SetFloat64("},
+		[]string{
+			"FX-STICKY: for every function and every *Decimal result parameter, the precision is written only when it was 0, or temporarily and restored on every exit, and the rounding mode never, except in the operations documented to copy attributes (Copy, SetMantExp, MantExp's out-parameter, GobDecode, SetPrec/SetMode themselves, package context); with entry precision 0 every success exit of the setters/operations has assigned it.",
+			"FX-IMMUT: no function writes a field or a mantissa word of a *Decimal parameter that is not its result parameter; FX-OWN: no two Decimals share a mantissa array.",
+			"The value a zero precision takes (max of the operand precisions, 34, 17, x's) is decided by T-ARITH/T-UNARY/T-CONV with enumerated precision orderings.",
+		},
+		"the parse path's default of 34 is checked only as 'assigned on every success exit'",
+		techFX+"; plus E4 tables", cdaiAssume, fxAssume)
+	p("C10",
+		[]string{"T-ARITH-ALIAS", "FX-RBW", "FX-RAW", "FX-OWN"},
+		[]string{
+			"T-ARITH-ALIAS: the dispatch tables of Add/Sub/Mul/Quo/FMA hold under every binding of the receiver to an operand and of operands to each other, with the receiver's previous form, sign and accuracy unknown.",
+			"FX-RBW: no result-defining operation reads the form, sign, accuracy, exponent, mantissa words or mantissa length its receiver held on entry (no read, no dependence).",
+			"FX-RAW: for every (result, operand) pair of every function, no operand field is read after the same field of the result was written unless distinctness was established; FX-OWN: every Decimal owns its mantissa array.",
+		},
+		"stale words in a reused mantissa buffer (dec.make does not clear) beyond the INIT rule",
+		techFX+"; plus E4 tables under aliasing", cdaiAssume, fxAssume)
+	p("C14",
+		[]string{"T-CONV@Int64(|Uint64(|Int(|Rat(", "T-UNARY@SetInt|SetUint64(|NewDecimal(|MinPrec(|IsInt(", "FX-STICKY@SetInt|SetUint64|SetRat|setBits64", "PREC0@SetInt|SetUint64|SetRat|setBits64|NewDecimal"},
+		[]string{
+			"T-CONV: Int64/Uint64/Int/Rat for ±0, ±Inf and finite values by exponent class give the documented saturation values and accuracies.",
+			"T-UNARY: SetInt/SetInt64/SetUint64/NewDecimal set the sign before rounding, +0 for a zero argument, keep a non-zero precision and choose the documented default otherwise; MinPrec/IsInt special cases.",
+			"FX-STICKY/PREC0 for the integer setters.",
+		},
+		"exactness of the radix conversions and of SetInt's precision estimate (numeric)",
+		techCDAI, cdaiAssume, fxAssume)
+	p("C15",
+		[]string{"T-CONV@SetFloat", "FX-RBW@SetFloat", "FX-STICKY@SetFloat"},
+		[]string{
+			"T-CONV: SetFloat64 and SetFloat dispatch on the ARGUMENT's class: NaN -> ErrNaN, ±0 and ±Inf map to themselves with the argument's sign and Exact accuracy, a finite value enters the scaling arithmetic with the argument's sign and is rounded last with the receiver's precision.",
+			"FX-RBW: neither reads the receiver's previous form/sign; FX-STICKY: the temporary precision increment is undone on every exit.",
+		},
+		"nearest/faithful rounding of the conversions, double rounding in Float32/Float64 (numeric, not applicable)",
+		techCDAI, cdaiAssume, fxAssume)
+	p("C16",
+		[]string{"T-CMP", "FX-DEP"},
+		[]string{
+			"T-CMP: Cmp over all 36 class pairs x the three possible results of ucmp: classes ordered -Inf < -finite < ±0 < +finite < +Inf, equal-sign finite values compared by exactly one ucmp in the right operand order, independent of precision/mode/accuracy of the operands; Sign, IsZero, IsInf, Signbit agree with the classification.",
+			"FX-DEP: Cmp, ucmp, ord, Sign, Signbit, IsZero, IsInf write nothing and read no precision, mode or accuracy.",
+		},
+		"that ucmp's zero-padding loop compares the right words (loop arithmetic)",
+		techCDAI, cdaiAssume, fxAssume)
+	p("C18",
+		[]string{"FX-IMMUT", "FX-OWN", "FX-GLOBAL"},
+		[]string{
+			"A data race needs two accesses to one location, one of them a write. FX-IMMUT + FX-OWN: every function writes only memory rooted at its result parameter, fresh allocations or scratch buffers, never fields or mantissa words of an operand, and no two Decimals share an array.",
+			"FX-GLOBAL: no package-level variable is written after init (the tuning thresholds only by test code), the shared Decimals oneHalf/three are only ever operands, decPool is a sync.Pool.",
+		},
+		"exclusive ownership of pooled scratch buffers between getDec and putDec (POOL rule) and the store targets of the assembly kernels (E7) where not yet listed; equality of concurrent and sequential results beyond 'no shared write'",
+		techFX, fxAssume)
+	p("C20",
+		[]string{"T-UNARY@MantExp(|SetMantExp(", "PREC0@SetBitsExp|SetMantExp|MantExp", "FX-RBW@SetBitsExp|SetMantExp", "FX-RAW@MantExp|SetMantExp", "FX-OWN@BitsExp|SetBitsExp|MantExp|SetMantExp|Copy", "FX-STICKY@SetBitsExp"},
+		[]string{
+			"T-UNARY: MantExp returns 0 and copies form/sign for ±0/±Inf, returns x's exponent and leaves mant with exponent 0 otherwise (also for mant nil and mant = x); SetMantExp copies zeros/infinities without scaling and enters setExpAndRound with exponent(mant)+exp and the sign already set, also for z = mant.",
+			"PREC0: SetBitsExp/SetMantExp never round with precision 0; FX-RBW: nothing of the old receiver is read; FX-RAW: MantExp(x == mant) and SetMantExp(z == mant) have no read-after-write hazard; FX-OWN: the only functions that share a mantissa array with the caller are SetBitsExp and BitsExp (documented).",
+		},
+		"the exponent-correction arithmetic of SetBitsExp/BitsExp (numeric)",
+		techCDAI, cdaiAssume, fxAssume)
 }
